@@ -676,3 +676,198 @@ func c05PopenFileName(c *Ctx, r *Report) {
 	}
 	r.Floor("R05.13", "command lines built for prepipe children", n, 1)
 }
+
+// c03PrintrepReads (R03.8): the retained text is read only when it is valid.
+func c03PrintrepReads(c *Ctx, r *Report) {
+	r.Rule("R03.8", "the text of a value is read only when it is there: a value computed in the process has no text until it is first needed (printrepValid is false and printrep empty), so every load of Mlrval.printrep in package mlrval either lies on the true edge of a test of printrepValid of the same value, follows a call that renders it (setPrintRep, String) on that value, reads a value under construction (the function stored printrep itself), or happens in a function whose callers establish validity (the inference entry points, which run on values that came from text). Elsewhere the text is obtained through String() / OriginalString()")
+	p := c.Pkg("pkg/mlrval")
+	if p == nil {
+		r.Undecided("R03.8", "pkg/mlrval", "", "package not loaded")
+		return
+	}
+	n := 0
+	tableCells := map[*ssa.Function]bool{}
+	rs := NewRetSum(c)
+	for _, t := range rs.tables {
+		for i := 0; i < K_DIM; i++ {
+			for j := 0; j < K_DIM; j++ {
+				if t.Dim == 1 && j > 0 {
+					break
+				}
+				if cf := t.Cell(i, j); cf != nil {
+					if sf := c.SSAFunc(cf); sf != nil {
+						tableCells[sf] = true
+					}
+				}
+			}
+		}
+	}
+	for _, fn := range c.ModuleFunctions() {
+		if fn.Blocks == nil || fn.Pkg == nil || fn.Pkg.Pkg != p.Types {
+			continue
+		}
+		// functions that run on from-text values by construction: inferrers and scan helpers (names frozen by role)
+		root := fn
+		for root.Parent() != nil {
+			root = root.Parent()
+		}
+		rn := root.Name()
+		fromText := strings.HasPrefix(rn, "infer") || strings.HasPrefix(rn, "Infer") || strings.Contains(rn, "Infer") || strings.HasPrefix(rn, "SetFrom") || strings.HasPrefix(rn, "setFrom")
+		idx := 0
+		for _, b := range fn.Blocks {
+			for ii, in := range b.Instrs {
+				ld, ok := in.(*ssa.UnOp)
+				if !ok || ld.Op != token.MUL {
+					continue
+				}
+				base, name, ok := mlrvalField(ld.X)
+				if !ok || name != "printrep" {
+					continue
+				}
+				n++
+				idx++
+				key := fmt.Sprintf("%s: read of printrep #%d", SSAName(fn), idx)
+				if fromText {
+					r.OK("R03.8", key, c.Rel(ld.Pos()), "an inference / from-text function: the value came from text")
+					continue
+				}
+				okRead := false
+				// (a) guard on printrepValid of the same value
+				for _, g := range GuardsAt(b) {
+					if u, ok := g.Cond.(*ssa.UnOp); ok && u.Op == token.MUL && g.Polarity {
+						if bb, nm, ok := mlrvalField(u.X); ok && nm == "printrepValid" && (bb == base || sameValue(bb, base) || sameStr(bb, base)) {
+							okRead = true
+						}
+					}
+				}
+				// (b) a rendering call on the same value, or a store of printrep to it, earlier in this block or in a dominator
+				if !okRead {
+					for d := b; d != nil && !okRead; d = d.Idom() {
+						for jj, din := range d.Instrs {
+							if d == b && jj >= ii {
+								break
+							}
+							switch x := din.(type) {
+							case ssa.CallInstruction:
+								cn := CalleeName(x.Common())
+								if (strings.HasSuffix(cn, "Mlrval.setPrintRep") || strings.HasSuffix(cn, "Mlrval.String") || strings.HasSuffix(cn, "Mlrval.OriginalString")) && len(x.Common().Args) > 0 && (x.Common().Args[0] == base || sameStr(x.Common().Args[0], base)) {
+									okRead = true
+								}
+							case *ssa.Store:
+								if bb, nm, ok := mlrvalField(x.Addr); ok && nm == "printrep" && (bb == base || sameStr(bb, base)) {
+									okRead = true
+								}
+							}
+						}
+					}
+				}
+				// (c) a fresh value built in this function with its text
+				if !okRead {
+					if _, isAlloc := base.(*ssa.Alloc); isAlloc {
+						okRead = true
+					}
+				}
+				// (d) the read is decided by the value's kind: for strings, empties and values whose type is still
+				// pending the text *is* the value — a branch on the kind of the same value dominates the read
+				if !okRead {
+					for _, g := range GuardsAt(b) {
+						var kindOf func(v ssa.Value, depth int) bool
+						kindOf = func(v ssa.Value, depth int) bool {
+							if depth > 4 {
+								return false
+							}
+							switch x := v.(type) {
+							case *ssa.UnOp:
+								if x.Op == token.MUL {
+									if bb, nm, ok := mlrvalField(x.X); ok && nm == "mvtype" && (bb == base || sameStr(bb, base)) {
+										return true
+									}
+								}
+								return kindOf(x.X, depth+1)
+							case *ssa.BinOp:
+								return kindOf(x.X, depth+1) || kindOf(x.Y, depth+1)
+							case *ssa.Call:
+								cn := CalleeName(&x.Call)
+								if strings.HasPrefix(cn, "pkg/mlrval.Mlrval.") && len(x.Call.Args) > 0 && (x.Call.Args[0] == base || sameStr(x.Call.Args[0], base)) {
+									m := cn[len("pkg/mlrval.Mlrval."):]
+									return m == "Type" || strings.HasPrefix(m, "Is")
+								}
+							case *ssa.Phi:
+								for _, e := range x.Edges {
+									if kindOf(e, depth+1) {
+										return true
+									}
+								}
+							}
+							return false
+						}
+						if kindOf(g.Cond, 0) {
+							okRead = true
+						}
+					}
+				}
+				// (d') the same through an || of kind tests (the block is entered from tests of the kind only), or an
+				// assertion on the kind earlier in the function (InternalCodingErrorIf(mv.mvtype != …))
+				if !okRead {
+					var kindOf2 func(v ssa.Value, depth int) bool
+					kindOf2 = func(v ssa.Value, depth int) bool {
+						if depth > 4 {
+							return false
+						}
+						switch x := v.(type) {
+						case *ssa.UnOp:
+							if x.Op == token.MUL {
+								if bb, nm, ok := mlrvalField(x.X); ok && nm == "mvtype" && (bb == base || sameStr(bb, base)) {
+									return true
+								}
+							}
+							return kindOf2(x.X, depth+1)
+						case *ssa.BinOp:
+							return kindOf2(x.X, depth+1) || kindOf2(x.Y, depth+1)
+						case *ssa.Call:
+							cn := CalleeName(&x.Call)
+							if strings.HasPrefix(cn, "pkg/mlrval.Mlrval.") && len(x.Call.Args) > 0 && (x.Call.Args[0] == base || sameStr(x.Call.Args[0], base)) {
+								m := cn[len("pkg/mlrval.Mlrval."):]
+								return m == "Type" || strings.HasPrefix(m, "Is")
+							}
+						case *ssa.Phi:
+							for _, e := range x.Edges {
+								if kindOf2(e, depth+1) {
+									return true
+								}
+							}
+						}
+						return false
+					}
+					allPreds := len(b.Preds) > 0
+					for _, pb := range b.Preds {
+						iff, isIf := pb.Instrs[len(pb.Instrs)-1].(*ssa.If)
+						if !isIf || !kindOf2(iff.Cond, 0) {
+							allPreds = false
+						}
+					}
+					if allPreds {
+						okRead = true
+					}
+					for d := b; d != nil && !okRead; d = d.Idom() {
+						for jj, din := range d.Instrs {
+							if d == b && jj >= ii {
+								break
+							}
+							if call, ok := din.(*ssa.Call); ok && strings.HasSuffix(CalleeName(&call.Call), "InternalCodingErrorIf") && len(call.Call.Args) == 1 && kindOf2(call.Call.Args[0], 0) {
+								okRead = true
+							}
+						}
+					}
+				}
+				// (e) a cell of a disposition table: it runs only for the kinds of its position
+				if !okRead && tableCells[root] {
+					okRead = true
+				}
+				r.Check(okRead, "R03.8", key, c.Rel(ld.Pos()), "valid text established",
+					fmt.Sprintf("%s reads the printrep field of a value at %s with nothing that establishes its validity (no printrepValid test, no rendering call on the same value before): for a value computed in the process the text is still empty there", SSAName(fn), c.Rel(ld.Pos())))
+			}
+		}
+	}
+	r.Floor("R03.8", "reads of Mlrval.printrep in package mlrval", n, 20)
+}
